@@ -408,12 +408,14 @@ class LogicalLinkController(object):
             self.mac.deactivate(release=False)  # use DESELECT
         if type(self.mac) == nfc.dep.Target:
             self.mac.deactivate(data=bytearray(b"\x01\x40"))
-        # shutdown local services
-        for i in range(63, -1, -1):
-            if not self.sap[i] is None:
-                log.debug("closing service access point %d" % i)
-                self.sap[i].shutdown()
-                self.sap[i] = None
+        # shutdown local services (with the lock held, a concurrent bind()
+        # either completes before and is shut down here or fails after)
+        with self.lock:
+            for i in range(63, -1, -1):
+                if not self.sap[i] is None:
+                    log.debug("closing service access point %d" % i)
+                    self.sap[i].shutdown()
+                    self.sap[i] = None
         self.link.SHUTDOWN = True
 
     def exchange(self, send_pdu, timeout):
@@ -733,16 +735,23 @@ class LogicalLinkController(object):
             raise err.Error(errno.ENOTSOCK)
         if socket.addr is not None:
             raise err.Error(errno.EINVAL)
-        if addr_or_name is None:
-            self._bind_by_none(socket)
-        elif isinstance(addr_or_name, int):
-            self._bind_by_addr(socket, addr_or_name)
-        elif isinstance(addr_or_name, (bytes, bytearray)):
-            self._bind_by_name(socket, bytes(addr_or_name))
-        elif isinstance(addr_or_name, str):
-            self._bind_by_name(socket, addr_or_name.encode('latin'))
-        else:
-            raise err.Error(errno.EFAULT)
+        with self.lock:
+            if self.sap[0] is None:
+                # terminate() removed all service access points, including
+                # the two that exist from construction. A socket bound now
+                # would never be served nor shut down and calls on it would
+                # block forever.
+                raise err.Error(errno.ESHUTDOWN)
+            if addr_or_name is None:
+                self._bind_by_none(socket)
+            elif isinstance(addr_or_name, int):
+                self._bind_by_addr(socket, addr_or_name)
+            elif isinstance(addr_or_name, (bytes, bytearray)):
+                self._bind_by_name(socket, bytes(addr_or_name))
+            elif isinstance(addr_or_name, str):
+                self._bind_by_name(socket, addr_or_name.encode('latin'))
+            else:
+                raise err.Error(errno.EFAULT)
 
     def _bind_by_none(self, socket):
         with self.lock:
